@@ -375,8 +375,21 @@ pub fn run(ctx: &Ctx) {
     let n = ctx.tier.pick(5000, 250_000);
     ctx.explore("forgeries", RULE, n, || strategy(12), oracle);
     ctx.replay_known("forgeries", |c: &Case| e1::without_exclusions(|| oracle(c)));
+    // MMCS opening circuits: an opened value changed while the Merkle-mode rows keep the honest path
+    let n = ctx.tier.pick(200, 10_000);
+    ctx.explore(
+        "mmcs-forged-openings",
+        crate::checks::c08::RULE_FORGED_OPENING,
+        n,
+        crate::checks::c08::prove_case_strategy,
+        crate::checks::c08::oracle_forged_opening,
+    );
+    ctx.replay_known("mmcs-forged-openings", crate::checks::c08::oracle_forged_opening);
     let n = ctx.tier.pick(800, 40_000);
     ctx.explore("perm-row-cells", RULE_PERM, n, perm_strategy, oracle_perm);
+    ctx.explore("perm-programs", crate::checks::pp::RULE_FORGED, ctx.tier.pick(1_000, 50_000),
+        crate::checks::pp::forged_strategy, |c| crate::checks::pp::oracle_forged(c, "C04/perm-programs"));
+    ctx.replay_known("perm-programs", |c: &crate::checks::pp::Case| crate::e1::without_exclusions(|| crate::checks::pp::oracle_forged(c, "C04/perm-programs")));
     // complete single-fault enumeration for a fixed set of small generated circuits
     let programs = ctx.tier.pick(6, 120) as usize;
     let cases = enumerate_single_faults(ctx.seed, programs);
